@@ -377,6 +377,9 @@ func (w *skylightWorld) entriesForHost(host string) []*skylightEntry {
 
 func (w *skylightWorld) request(variant int, host, target string, layout *skylightEntry, rel string, id int, tr *Trace, st *Stats) (fails []OracleFailure) {
 	cs := &skylightCase{Variant: variant, Host: host, Target: target}
+	if layout != nil {
+		cs.Layout = rel
+	}
 	fail := func(sig, format string, a ...any) {
 		fails = append(fails, OracleFailure{Property: "C19", Signature: sig, Detail: fmt.Sprintf(format, a...), Case: cs})
 	}
@@ -688,9 +691,6 @@ func skylightRunVariant(d *skylightDirs, base string, variant int, o *Opts, tr *
 		return nil
 	}
 	defer w.stop()
-	if only != nil {
-		return w.request(variant, only.Host, only.Target, nil, "", 1, tr, st)
-	}
 	// ---- trace header: configuration and the files found by the independent walk
 	tr.Line("cfg %d home %d", variant, skylightB(w.home))
 	for _, e := range w.entries {
@@ -712,6 +712,21 @@ func skylightRunVariant(d *skylightDirs, base string, variant int, o *Opts, tr *
 			s := e.files[p]
 			tr.Line("f %s %d %s %s", e.kind, e.idx, skylightHex(p), hex.EncodeToString(s[:]))
 		}
+	}
+	if only != nil {
+		// a replayed layout request is checked against the file it names, like in the full run
+		var le *skylightEntry
+		if only.Layout != "" {
+			for _, e := range w.entries {
+				if u, ok := skylightLayoutURL(e, only.Layout); ok && e.host == only.Host && u == only.Target {
+					le = e
+				}
+			}
+		}
+		st.Eval("replay", true)
+		fs := w.request(variant, only.Host, only.Target, le, only.Layout, 1, tr, st)
+		tr.Line("endcfg %d", variant)
+		return fs
 	}
 	id := 0
 	for _, e := range w.entries {
